@@ -84,7 +84,7 @@ def project(market, pool: Pool, broker):
     return {"w": (frac(broker.get_token_balance(pool.t0)), frac(broker.get_token_balance(pool.t1))), "pos": pos, "lent": lent}
 
 
-def run_behaviour(pool: Pool, scn, events, row0, float_ticks=False, est_ranges=None, F=1):
+def run_behaviour(pool: Pool, scn, events, row0, float_ticks=False, est_ranges=None, F=1, acct_f=None):
     """Execute through the real Actuator.  Returns list of records, one per event:
     dict(out, exc, ret, proj, nv) for operations; dict(proj, nv) for endbar; plus a possible run-level error."""
     bars = [[]]
@@ -104,7 +104,14 @@ def run_behaviour(pool: Pool, scn, events, row0, float_ticks=False, est_ranges=N
     act.broker.add_market(market)
     act.broker.set_balance(pool.t0, dec(pool.w0[0]))
     act.broker.set_balance(pool.t1, dec(pool.w0[1]))
-    act.set_price(market.get_price_from_data())
+    if acct_f is None:
+        act.set_price(market.get_price_from_data())
+    else:
+        # the account is quoted in another token (USD) than the pool (USDC), and the pool's quote token is worth acct_f of it:
+        # every value the market reports has to be converted by the broker
+        prices, _q = market.get_price_from_data()
+        f = Decimal(acct_f.numerator) / Decimal(acct_f.denominator)
+        act.set_price(prices.map(lambda x: Decimal(x) * f), TokenInfo("usd", 6))
     recs = []
     base_first = not pool.zq     # base = token0 unless token0 is the quote token
 
@@ -256,7 +263,7 @@ RET_KEYS = {"lend": (), "unlend": (), "add": ("base", "quote", "liq"), "remove":
             "buy": ("fee", "quote", "base"), "sell": ("fee", "quote", "base")}
 
 
-def compare_run(pool: Pool, recs, err, steps, tally, init_proj=None, init_st=None, views=None):
+def compare_run(pool: Pool, recs, err, steps, tally, init_proj=None, init_st=None, views=None, acct_f=None):
     """steps: spec records (ev, out, ret, st) in order (scenario events included).  Returns (mismatches, index)."""
     if err and len(recs) < len(steps):
         # the run aborted: attribute to the phase that raised
@@ -300,14 +307,18 @@ def compare_run(pool: Pool, recs, err, steps, tally, init_proj=None, init_st=Non
             price = Q(views[i]["price"])
             w = (Q(st["w"][0]), Q(st["w"][1])) if ev["op"] != "endbar" else rec["proj"]["w"]
             b, q = (w[1], w[0]) if pool.zq else (w[0], w[1])
-            spec_av, spec_mv = b * price + q, Q(views[i]["net"])
+            fq = Fraction(1) if acct_f is None else acct_f          # account quote per pool quote token
+            spec_av, spec_mv = (b * price + q) * fq, Q(views[i]["net"])
             nv, av, mv = rec["acct"]
+            if acct_f is not None:
+                tally("C01/uni_market_quote_differs_from_account_quote")
             if not close(av, spec_av, REL, ABS):
                 mm.append(MM("C01", "asset_value", f"asset_value code {float(av)!r} spec {float(spec_av)!r}"))
             elif not close(mv, spec_mv, REL, ABS):
                 mm.append(MM("C01", "market_net_value", f"uniswap net_value code {float(mv)!r} spec {float(spec_mv)!r}"))
-            elif not close(nv, spec_av + spec_mv, REL, ABS):
-                mm.append(MM("C01", "net_value", f"account net_value code {float(nv)!r} spec {float(spec_av + spec_mv)!r}"))
+            elif not close(nv, spec_av + spec_mv * fq, REL, ABS):
+                mm.append(MM("C01", "net_value", f"account net_value code {float(nv)!r} spec {float(spec_av + spec_mv * fq)!r}"
+                                                 + (f" (market quoted in a token worth {float(fq)} of the account's)" if acct_f is not None else "")))
         if not mm and ev["op"] != "endbar":
             # C03: frozen market.  add/remove/collect conserve the reported net value up to wallet dust (and the integer liquidity
             # floor, far below); buy/sell lose exactly the reported fee; nothing negative
@@ -322,7 +333,7 @@ def compare_run(pool: Pool, recs, err, steps, tally, init_proj=None, init_st=Non
                 pass      # the position moves between this market's valuation and the borrower's (C01 owns "counted once")
             elif rec["out"] == "ok" and rec["ret"] is not None:
                 fee = frac(Decimal(rec["ret"]["fee"]))
-                fee_q = fee if ev["op"] == "buy" else fee * Q(views[i]["price"]) if views is not None else fee
+                fee_q = (fee if ev["op"] == "buy" else fee * Q(views[i]["price"]) if views is not None else fee) * (acct_f or 1)
                 if abs(dv + fee_q) > dust:
                     mm.append(MM("C03", "swap_loses_fee", f"{ev['op']} changed net value by {float(dv)!r}, reported fee {float(fee_q)!r} (quote)"))
             elif dv > dust:
